@@ -702,7 +702,10 @@ def judge(sh, env, case, route, src, dst, final, want, outcome, info, hop, orig=
         mech = MECH_EXEC
     # (2) directory copied *into* an existing directory: data manager registers dst/<name>, the copy routine
     #     put the content directly under dst
+    #     — only where that defect lives: local destination filled by extract_tar_stream (remote source) or by
+    #     _local_copy's copytree (local source, writable)
     elif (outcome == "ok" and case["kind"] == "dir" and case["dst_state"] == "into-dir" and src_same
+          and case["dst_loc"] == "L" and (case["src_loc"] != "L" or case["writable"])
           and (got is None or got == {".": ("d",)} or (extra and got == norm(extra.get("previous"))))
           and into_dir_spread(case, dst, want)):
         mech = MECH_INTO
